@@ -1,9 +1,12 @@
-(* Tie B for C14: compare the model of Percolate with what the implementation did. *)
+(* Tie B for C14: compare the model of Percolate with what the implementation did.
+   A case is a history of runs of ONE dynamics object on one prototype network; every run is compared with
+   the model on the ORIGINAL edge list (setUp makes a fresh working copy of the prototype, so runs are
+   independent in the model). *)
 From Coq Require Import List ZArith QArith Bool Arith.
 From EpyV Require Import Lib.Prelude Model.Percolate.
 Import ListNotations.
 
-Record case_t := {
+Record run_t := {
   c_nodes : list Z; c_edges : list edge; c_perm : list nat; c_T : Q;
   o_occupied : list edge; o_unoccupied : list edge;
   o_nodes : list Z; o_edges : list edge;      (* working network after the build *)
@@ -13,10 +16,13 @@ Record case_t := {
 Definition edges_same (a b : list edge) : bool :=
   Nat.eqb (length a) (length b) && set_eqb same_edge a b.
 
-Definition check_case (c : case_t) : bool :=
+Definition check_run (c : run_t) : bool :=
   let m := percolate (c_nodes c) (c_edges c) (c_perm c) (c_T c) in
   list_eqb zpair_eqb (occupied m) (o_occupied c)
   && list_eqb zpair_eqb (unoccupied m) (o_unoccupied c)
   && set_eqb Z.eqb (nodes_after m) (o_nodes c) && Nat.eqb (length (nodes_after m)) (length (o_nodes c))
   && edges_same (edges_after m) (o_edges c)
   && edges_same (edges_after m) (o_next_edges c).
+
+Definition case_t := list run_t.
+Definition check_case (c : case_t) : bool := forallb check_run c.
